@@ -183,6 +183,11 @@ func (s *Spec) Render(rng *rand.Rand) string {
 	}
 	if rng != nil {
 		rng.Shuffle(len(mods), func(i, j int) { mods[i], mods[j] = mods[j], mods[i] })
+		// An empty component (doubled or trailing comma) is legal and inert.
+		if len(mods) > 0 && rng.Intn(30) == 0 {
+			i := 1 + rng.Intn(len(mods))
+			mods = append(mods[:i], append([]string{""}, mods[i:]...)...)
+		}
 	}
 	var sb strings.Builder
 	if s.Exception {
